@@ -46,8 +46,8 @@ SHint(r) ==
 
 SElem ==
     /\ IsDe /\ op.phase = "idle"
-    /\ ~op.sawNone
-    /\ op.polls <= op.n                         \* at most N + 1 next_element calls
+    \* (the property bounds neither the number of next_element calls nor calls after None: a visitor that
+    \*  keeps reading in order to report how many elements there were is still correct)
     /\ op' = [op EXCEPT !.polls = @ + 1, !.phase = "incb", !.cur = <<>>]
     /\ UNCHANGED <<life, pool, loose, owed, heap, cfg>>
 
